@@ -1,13 +1,17 @@
-"""C41 Functions, splines and smooth steps are self-consistent (DESIGN 5 C41) -- partial: splines are not modelled.
+"""C41 Functions, splines and smooth steps are self-consistent (DESIGN 5 C41) -- partial: spline FITTING (gcvspl) is not modelled.
 Tie 1 (translator): Gen/step_gen.v = stepUp..d3stepAny regenerated from Scalar.h each run, plus translator validation
         (lib/tvgen.py) on arguments inside the asserted domain.
 Tie 2 (correspondence): hand model C41_Model.v of Function_<Real>::{Constant,Linear,Polynomial,Sinusoid,Step} extracted to
-        OCaml and run against the compiled Function.h objects on the same generated cases (harness/C41_func.cpp, -DNDEBUG)."""
+        OCaml and run against the compiled Function.h objects on the same generated cases (harness/C41_func.cpp, -DNDEBUG).
+Tie 3 (correspondence): hand model C41_spline_Model.v of the spline EVALUATION (gcvspl.cpp search_ + SimTK_splder_, GCVSPLUtil::splder,
+        Spline_::calcValue/calcDerivative) extracted to OCaml and run against Spline_ objects fitted by the implementation's SplineFitter
+        (degrees 1,3,5,7; interpolating, smoothing, GCV), orders 0..degree+1, at the ends, at / a few ulps around / 1e-9 around knots and
+        inside intervals (harness/C41_spline.cpp), rel tol 1e-12."""
 import os, sys, math
 from vlib import *
 import tvgen
 
-PROPS = ['Props/Properties_C41.v', 'Props/Properties_C41_func.v']
+PROPS = ['Props/Properties_C41.v', 'Props/Properties_C41_func.v', 'Props/Properties_C41_spline.v']
 ONE_ARG = ('k_stepUp', 'k_dstepUp', 'k_d2stepUp', 'k_d3stepUp', 'k_stepDown', 'k_dstepDown', 'k_d2stepDown', 'k_d3stepDown')
 
 class StepArgs:
@@ -247,13 +251,19 @@ def run(ctx):
     ctx.cov['rule'] = ('(a) translator validation: each of the 12 translated step kernels on arguments inside the asserted domain (0, 1, 1/2 and uniform); '
                        '(b) correspondence: per kind (Constant, Linear, Polynomial, Sinusoid, Step, raw stepAny family) generated parameters, derivative '
                        'component lists / orders around every case split (order vs degree, Sinusoid orders 0..13, Step before/at/inside/after both directions, '
-                       'throwing orders, zero-length interval); non-trivial = some output non-zero; distinct by full case text')
+                       'throwing orders, zero-length interval); (c) spline evaluation: splines of degree 1,3,5,7 with 4..40 knots (uniform / random) fitted by the '
+                       'implementation (interpolating, fixed smoothing parameter, GCV), every order 0..degree+1 at the first and last knot, at interior knots, one ulp '
+                       'and 1e-9 beside knots, inside intervals and inside the boundary intervals; non-trivial = some output non-zero; distinct by full case text '
+                       '(splines: by knot vector, argument and order)')
     ctx.assumptions += ['theorems are over the reals (ROps); binary64 rounding is covered only by the tolerance-based runs',
                         'Function objects are a hand-written model (C41_Model.v) tied by correspondence only on the generated cases; T = Real only (Function_<Vec<N>> not run)',
                         'std::pow(w,order) in Sinusoid is modelled as repeated multiplication',
                         'harness compiled with -DNDEBUG (as the release libraries): assert-guarded preconditions (derivative order > 0, argument sizes, x in range for the raw step helpers) are preconditions of the theorems where stated',
                         'd3stepAny outside the open transition interval is outside the documented domain (it reports 60*yRange/xRange^3, the true value is 0); Function::Step returns 0 there and is proved correct',
-                        'NOT covered: Spline_, SplineFitter, GCVSPL (no model, no theorem)']
+                        'splines: only the EVALUATION (search_, SimTK_splder_, Spline_ dispatch) is modelled and tied; knots and coefficients are taken from the implementation; '
+                        'the FITTING (gcvspl_: interpolation of the data, GCV optimisation) is not modelled -- that interpolating splines pass through their data is only checked by the failing-input search on the implementation',
+                        'spline derivative-consistency and C2 theorems are proved for degree 1 and degree 3 (every knot vector, every interval); for degrees 5 and 7 only the degree-independent theorems (orders above the degree vanish, linearity in the coefficients, interval search) and the correspondence run apply',
+                        'the spline model takes the initial interval guess of GCVSPLUtil::splder as an input (computed by the driver with the same expression); search_guess_irrelevant proves it does not matter for increasing knots']
     if ctx.broken or not quick:
         search(ctx, 300 if quick else 3000)
     ctx.finish()
